@@ -1,7 +1,7 @@
 (* Properties/C05.v -- Decoding untrusted input never panics or hangs. *)
-From Coq Require Import Arith NArith List Bool.
+From Coq Require Import Arith ZArith NArith List Bool.
 From DM Require Import Generated.Symbols Spec.GF256 Model.Outcome Model.Dec Model.Eci Model.Render Model.RSDec
-  Proofs.DecProofs Proofs.RenderProofs Proofs.RSDecProofs.
+  Model.Placement Model.Api Proofs.DecProofs Proofs.RenderProofs Proofs.RSDecProofs Proofs.PlacementProofs Proofs.DecodeGlue.
 Import ListNotations.
 
 (* In the model every Rust panic site (assert!, unwrap, slice index, arithmetic overflow of the
@@ -32,6 +32,21 @@ Theorem C05_rs_success_shape : forall s cw c',
   RSDec.decode cw s = Ok c' -> length c' = length cw /\ Forall byte c'.
 Proof. intros s cw c' L B H. destruct (decode_success_codeword s cw c' L B H) as (A1 & A2 & _). split; assumption. Qed.
 Print Assumptions C05_rs_success_shape.
+
+(* the whole-symbol entry point DataMatrix::decode(pixels, width): for EVERY pixel array and width the glue around
+   the error-correction decoder -- strict parsing, placement read-out (total on every content: C05_codewords_total),
+   the split into data and error part, the data decoder -- cannot panic; a panic of decode() can only be a panic
+   raised inside decode_error on the codewords read from an array that parsed as a symbol *)
+Theorem C05_codewords_total : forall s e, length e = Z.to_nat (zh s * zw s) ->
+  exists cw, Placement.codewords (zh s) (zw s) e = Ok cw /\ length cw = N.to_nat (ntotal s) /\ Forall byte cw.
+Proof. exact codewords_total. Qed.
+Print Assumptions C05_codewords_total.
+
+Theorem C05_decode_glue : forall pixels width p, dm_decode pixels width = Panic p ->
+  exists entries size cw, try_from_bits pixels width = Ok (entries, size) /\
+    Placement.codewords (zh size) (zw size) entries = Ok cw /\ RSDec.decode cw size = Panic p.
+Proof. exact dm_decode_panic_source. Qed.
+Print Assumptions C05_decode_glue.
 
 (* non-vacuity / the former witnesses of the defects *)
 Example C05_examples :
